@@ -663,6 +663,7 @@ static std::string jmap(const std::map<std::string, uint64_t>& m) {
   return o + "}";
 }
 
+static uint64_t g_det_pairs = 0, g_det_bad = 0;
 static void write_evidence(const WorkerStats& m, size_t distinct, double wall, int violations, const std::vector<std::string>& notes) {
   if (O.evidence.empty()) return;
   std::string tmp = O.evidence + ".tmp";
@@ -678,6 +679,7 @@ static void write_evidence(const WorkerStats& m, size_t distinct, double wall, i
   fprintf(f, "  \"harness\": %s,\n  \"mode\": %d,\n", json::quote(g_harness.name).c_str(), O.mode);
   fprintf(f, "  \"runs_ok\": %llu,\n  \"runs_skipped\": %llu,\n  \"runs_inconclusive_budget\": %llu,\n  \"runs_infra_error\": %llu,\n  \"runs_known_finding\": %llu,\n", (unsigned long long)m.ok, (unsigned long long)m.skipped, (unsigned long long)m.budget, (unsigned long long)m.infra, (unsigned long long)m.known);
   fprintf(f, "  \"nontrivial_runs\": %llu,\n", (unsigned long long)m.nontrivial);
+  fprintf(f, "  \"determinism_pairs_checked\": %llu,\n  \"determinism_mismatches\": %llu,\n", (unsigned long long)g_det_pairs, (unsigned long long)g_det_bad);
   fprintf(f, "  \"runs_per_hour\": %.0f,\n  \"simulated_seconds\": %.3f,\n  \"scheduling_points\": %llu,\n  \"context_switches\": %llu,\n", wall > 0 ? (double)m.runs / wall * 3600 : 0, m.vtime_s, (unsigned long long)m.steps, (unsigned long long)m.switches);
   fprintf(f, "  \"faults_fired\": %s,\n  \"probes\": %s,\n", jmap(m.faults).c_str(), jmap(m.probes).c_str());
   fprintf(f, "  \"components\": {\"real\": [\"babylon sources compiled from /repo working tree with clang -fsanitize=thread instrumentation routed to the simulator\", \"harness\"], \"stub\": [\"kernel futex/clock/sleep/threads scheduling (simulated)\", \"abseil, protobuf, libstdc++ internals (uninstrumented, execute atomically)\"]}\n");
@@ -787,6 +789,25 @@ static int run_batch() {
     }
     free((void*)s.gp.property);
   }
+  // determinism sample: a few seeds of this batch are run twice more in pristine
+  // processes; the full event hashes must agree (otherwise nothing this run
+  // reports can be trusted: exit 2)
+  uint64_t det_pairs = 0, det_bad = 0;
+  if (rc != 1) {
+    for (uint64_t i = 0; i < 12 && i < m.runs; i++) {
+      RunSpec s = spec_for_index(O.first_index + i * 7);
+      g_prelude.clear();
+      RunResult a = run_one(s), b = run_one(s);
+      det_pairs++;
+      if (a.hash != b.hash || a.status != b.status || a.steps != b.steps) {
+        det_bad++;
+        printf("INFRA nondeterministic: index %llu seed %llu gave status %d/%d steps %llu/%llu hash %llu/%llu\n", (unsigned long long)(O.first_index + i * 7), (unsigned long long)s.seed, a.status, b.status, (unsigned long long)a.steps, (unsigned long long)b.steps, (unsigned long long)a.hash, (unsigned long long)b.hash);
+      }
+      free((void*)s.gp.property);
+    }
+    if (det_bad) rc = 2;
+  }
+  g_det_pairs = det_pairs; g_det_bad = det_bad;
   if (rc == 0 && m.infra > 0) {
     printf("INFRA %llu runs ended with infrastructure errors: %s\n", (unsigned long long)m.infra, m.infra_msg.c_str());
     rc = 2;
